@@ -64,20 +64,29 @@ KaminoAdj(raw, ratioBits) == BFloorDiv(BMul(raw, ratioBits), TWO48)
 SETUP_DRIFT_PYTH == 9
 MarketsOf(s) == IF Has(s, "markets") THEN s.markets ELSE <<>>
 DriftAdj(raw, cum) == BFloorDiv(BMul(raw, cum), BPow10(10))
+\* the Switchboard variants of the three venue-backed setups: the same exchange rate applied to the feed's 10^18-scaled
+\* value and standard deviation (Kamino / Solend: through I80F48, which holds integers below 2^79 only; Drift: in u128)
+SETUP_KAMINO_SWB == 7
+SETUP_DRIFT_SWB == 10
+SETUP_SOLEND_SWB == 12
+KamLike == {SETUP_KAMINO_PYTH, SETUP_SOLEND_PYTH, SETUP_KAMINO_SWB, SETUP_SOLEND_SWB}
+SolLike == {SETUP_SOLEND_PYTH, SETUP_SOLEND_SWB}
+DriLike == {SETUP_DRIFT_PYTH, SETUP_DRIFT_SWB}
+SwbLike == {SETUP_KAMINO_SWB, SETUP_DRIFT_SWB, SETUP_SOLEND_SWB}
 
 \* Price record for bank bn as presented in event e at state s.  ptype in {"RT","TW"}.
 \* usable in {"yes","no","maybe"} ("maybe" = within rounding of the confidence threshold: don't care)
 RefPrice(s, e, bn, ptype) ==
   LET b == s.banks[bn] setup == b.cfg.oracle_setup now == s.clock.ts IN
   IF setup = SETUP_FIXED THEN [usable |-> "yes", known |-> TRUE, p |-> R(b.cfg.fixed_price), ci |-> RZero]
-  ELSE IF setup \notin {SETUP_PYTH, SETUP_SWB, SETUP_STAKED, SETUP_KAMINO_PYTH, SETUP_DRIFT_PYTH, SETUP_SOLEND_PYTH} THEN [usable |-> "maybe", known |-> FALSE, p |-> RZero, ci |-> RZero]
-  ELSE IF setup = SETUP_DRIFT_PYTH /\ ~Has(MarketsOf(s), b.cfg.oracle_keys[2]) THEN [usable |-> "maybe", known |-> FALSE, p |-> RZero, ci |-> RZero]
-  ELSE IF setup \in {SETUP_KAMINO_PYTH, SETUP_SOLEND_PYTH} /\ ~Has(ReservesOf(s), b.cfg.oracle_keys[2]) THEN [usable |-> "maybe", known |-> FALSE, p |-> RZero, ci |-> RZero]
+  ELSE IF setup \notin ({SETUP_PYTH, SETUP_SWB, SETUP_STAKED} \cup KamLike \cup DriLike) THEN [usable |-> "maybe", known |-> FALSE, p |-> RZero, ci |-> RZero]
+  ELSE IF setup \in DriLike /\ ~Has(MarketsOf(s), b.cfg.oracle_keys[2]) THEN [usable |-> "maybe", known |-> FALSE, p |-> RZero, ci |-> RZero]
+  ELSE IF setup \in KamLike /\ ~Has(ReservesOf(s), b.cfg.oracle_keys[2]) THEN [usable |-> "maybe", known |-> FALSE, p |-> RZero, ci |-> RZero]
   ELSE
   LET key == b.cfg.oracle_keys[1] pres == PresentedOracle(e, bn, b)
       staked == setup = SETUP_STAKED
-      kam == setup \in {SETUP_KAMINO_PYTH, SETUP_SOLEND_PYTH}
-      dri == setup = SETUP_DRIFT_PYTH
+      kam == setup \in KamLike
+      dri == setup \in DriLike
       pools == IF staked THEN PoolFor(s, b.cfg.oracle_keys[2], b.cfg.oracle_keys[3]) ELSE {}
       slotsOk == /\ staked => (PresentedSlot(e, bn, b, 2) = b.cfg.oracle_keys[2] /\ PresentedSlot(e, bn, b, 3) = b.cfg.oracle_keys[3])
                  /\ (kam \/ dri) => PresentedSlot(e, bn, b, 2) = b.cfg.oracle_keys[2]
@@ -92,20 +101,29 @@ RefPrice(s, e, bn, ptype) ==
       mkt == IF dri THEN s.markets[b.cfg.oracle_keys[2]] ELSE [ts |-> BZero, owner_ok |-> TRUE, cum |-> BPow10(10)]
       poolOk == /\ staked => (pool.state = "stake" /\ BIsPos(pool.supply) /\ BGe(pool.stake, LAMPORTS_PER_SOL))
                 \* the reserve must be the venue's account and refreshed in the current slot; a negative ratio is an arithmetic failure
-                /\ kam => (res.owner_ok /\ BGe(res.slot, s.clock.slot) /\ ~BIsNeg(ratio) /\ (IsSolendReserve(res) <=> setup = SETUP_SOLEND_PYTH))
+                /\ kam => (res.owner_ok /\ BGe(res.slot, s.clock.slot) /\ ~BIsNeg(ratio) /\ (IsSolendReserve(res) <=> setup \in SolLike))
+                \* (a 10^18-scaled feed value of 2^79 or more does not fit the fixed-point type the adjustment goes through)
+                /\ (kam /\ setup \in SwbLike /\ o.kind = "swb") =>
+                     (BLt(o.swb_value, BPow2(79)) /\ BLt(o.swb_std, BPow2(79))
+                      /\ BLt(KaminoAdj(o.swb_value, ratio), BPow2(79)) /\ BLt(KaminoAdj(o.swb_std, ratio), BPow2(79)))
+                \* (the Pyth variants go through I80F48 back into 64-bit integers)
+                /\ (kam /\ setup \notin SwbLike /\ o.kind = "pyth") =>
+                     (BLt(KaminoAdj(o.price, ratio), BPow2(63)) /\ BLt(KaminoAdj(o.ema, ratio), BPow2(63))
+                      /\ BLt(KaminoAdj(o.conf, ratio), BPow2(64)) /\ BLt(KaminoAdj(o.ema_conf, ratio), BPow2(64)))
                 /\ dri => (mkt.owner_ok /\ BGe(mkt.ts, s.clock.ts))
       \* raw integer price scaled by the pool's exchange rate (truncating division, as the adapter does before anything else)
       Adj(raw) == IF staked /\ poolOk THEN BFloorDiv(BMul(raw, BSub(pool.stake, LAMPORTS_PER_SOL)), pool.supply)
                   ELSE IF kam /\ poolOk THEN KaminoAdj(raw, ratio)
                   ELSE IF dri /\ poolOk THEN DriftAdj(raw, mkt.cum) ELSE raw
       AdjC(raw) == IF kam /\ poolOk THEN KaminoAdj(raw, ratio) ELSE IF dri /\ poolOk THEN DriftAdj(raw, mkt.cum) ELSE raw
-      kindOk == (setup \in {SETUP_PYTH, SETUP_STAKED, SETUP_KAMINO_PYTH, SETUP_DRIFT_PYTH, SETUP_SOLEND_PYTH} /\ o.kind = "pyth") \/ (setup = SETUP_SWB /\ o.kind = "swb")
+      kindOk == (setup \in {SETUP_PYTH, SETUP_STAKED, SETUP_KAMINO_PYTH, SETUP_DRIFT_PYTH, SETUP_SOLEND_PYTH} /\ o.kind = "pyth")
+                \/ (setup \in ({SETUP_SWB} \cup SwbLike) /\ o.kind = "swb")
       authentic == kindOk /\ o.owner_ok /\ o.discr_ok /\ o.live /\ (o.kind = "pyth" => o.verif_ok) /\ poolOk
       age == BSub(now, o.ts)
       fresh == BLe(age, BOfInt(MaxAge(b)))
-      p == IF o.kind = "pyth" THEN Scale10(Adj(IF ptype = "RT" THEN o.price ELSE o.ema), o.expo) ELSE RMake(o.swb_value, E18)
+      p == IF o.kind = "pyth" THEN Scale10(Adj(IF ptype = "RT" THEN o.price ELSE o.ema), o.expo) ELSE RMake(AdjC(o.swb_value), E18)
       c0 == IF o.kind = "pyth" THEN RMul(Scale10(AdjC(IF ptype = "RT" THEN o.conf ELSE o.ema_conf), o.expo), K_PYTH)
-            ELSE RMul(RMake(o.swb_std, E18), K_SWB)
+            ELSE RMul(RMake(AdjC(o.swb_std), E18), K_SWB)
       maxc == RMul(p, MaxConfRatio(b))
       slackc == RMul(TINY, RAdd(ROne, RAdd(RAbs(p), c0)))
       conf == IF RLe(c0, RSub(maxc, slackc)) THEN "yes" ELSE IF RGt(c0, RAdd(maxc, slackc)) THEN "no" ELSE "maybe"
